@@ -34,7 +34,10 @@ CHECKS = {
             "no mutating call in three further rounds.", NOTE_E1, "5/C03"),
     "C04": ("seqx", TECH_E1,
             "All ancestry-disjoint 1+1 pairs of operations from base B2 in every interleaving (2+1 deviation-bounded in "
-            "thorough): both quiet trees equal a reference three-way merge computed on a dict tree.", NOTE_E1, "5/C04"),
+            "thorough), plus 3-4 operation chains around a folder rename (edit child, rename folder, follow-up on the child at "
+            "its new path, move it back) against an unrelated operation on the other side, explored with <=1 (2) deviations "
+            "from three default schedules (prompt, lazy remote intake, lazy local intake): both quiet trees equal a reference "
+            "three-way merge computed on a dict tree.", NOTE_E1, "5/C04"),
     "C05": ("seqx", TECH_E1,
             "Conflict shape x content pair x 10 resolver behaviours, both user operations first, then every interleaving of "
             "engine steps: outcome table of the statement, resolver call count and arguments, and a singleton terminal "
@@ -49,8 +52,8 @@ CHECKS = {
     "C07": ("seqx", "exhaustive crash-point enumeration (every storage write, every engine provider write) on explored executions",
             "Within every base execution each storage create/update/delete is taken as a crash instant (die before it) and each "
             "effective engine provider write as a crash instant (die right after it); writes after death are refused; a new engine "
-            "restarts over the storage and provider contents of that instant: convergence, no loss, no artefact for one-sided "
-            "histories.", NOTE_E1 + " A crash is 'process disappears between two calls'; torn rows are SQLite's contract.", "5/C07"),
+            "restarts over the storage and provider contents of that instant under three post-restart schedules (fair, sync loop "
+            "first, remote events first), four provider flavours: convergence, no loss, no artefact for one-sided histories.", NOTE_E1 + " A crash is 'process disappears between two calls'; torn rows are SQLite's contract.", "5/C07"),
     "C10": ("seqx", "exhaustive fault-placement enumeration (every engine API call x 4 error kinds, before/after effect)",
             "Every provider API call the engine makes in a base execution is failed once with a temporary, disconnected, token or "
             "out-of-space error before its effect, every mutating call also right after its effect; plus permanent per-path "
@@ -65,7 +68,9 @@ CHECKS = {
     "C09": ("apix", TECH_E2,
             "Every call sequence up to depth 4 (5 thorough) over the storage API with colliding tags and ids and close/reopen "
             "is run on SqliteStorage (file and :memory:) and the upstream MockStorage; after each call the full contents are "
-            "compared with a dict.", "Trusted: the dict model; durability is close/reopen, not power loss. MockStorage is a "
+            "compared with a dict. Concurrent use: 2-3 real threads with 1-2 operations each on colliding ids under a controlled "
+            "scheduler (backend mutex replaced by a cooperative lock), every schedule within the preemption bound, brute-force "
+            "linearizability against the dict.", "Trusted: the dict model; durability is close/reopen, not power loss. MockStorage is a "
             "test fixture: its two defects are listed as known findings.", "5/C09"),
     "C11": ("apix+seqx", TECH_E2 + "; invariant monitor on the engine exploration",
             "All sequences of raw state-level operations (events for both id styles, split, discard, conflict, finish, "
